@@ -305,16 +305,19 @@ def run(ctx):
     # brackets: [..] re-enters the list parser with the SAME sub-parser
     from . import common as _cm0
     nb = 0
+    nb_by = {}
     f_pml0 = repo.func('matcher._parse_matcher_list')
     for pname in ('_parse_arg_matcher', '_parse_arg_value_matcher', '_parse_text_matcher', '_parse_obj_matcher'):
         f = repo.func('matcher.' + pname)
         par = _cm0.cparams(f)[0]
+        nb_by[pname] = 0
         for p in paths_of(repo, f, unroll=1):
             facts = {a_.text: v_ for a_, v_ in p.decisions}
             opens, closes = facts.get("%s.startswith('[')" % par), facts.get("%s.endswith(']')" % par)
             calls = [e for e in p.events if e.kind == 'call' and e.ftext == '_parse_matcher_list']
             if opens is True and closes is True:
                 nb += 1
+                nb_by[pname] += 1
                 ctx.check(len(calls) == 1, 'C05.6', 'brackets:parsed-as-list:%s' % pname, f.loc(), 'text in brackets is parsed as a list', '%s parses bracketed text with %d list parses' % (pname, len(calls)))
             elif calls:
                 ctx.check(False, 'C05.6', 'brackets:only-when-bracketed:%s' % pname, f.loc(calls[0].node), '', '%s treats text as a bracketed list although it %s' % (pname, 'does not start with [' if opens is False else 'does not end with ]'))
@@ -325,7 +328,13 @@ def run(ctx):
                           'a bracketed list inside %s is a list of the same kind of thing' % pname, 'brackets inside %s are parsed with %s' % (pname, norm(sub) if sub is not None else '?'))
                 ctx.check(txt is not None and norm(txt) == '%s[1:-1]' % par, 'C05.6', 'brackets:strip-one-pair:%s' % pname, f.loc(e.node), 'exactly the outer pair of brackets is removed',
                           '%s hands %s to the list parser' % (pname, norm(txt)[:60] if txt is not None else '?'))
-    ctx.floor('C05.6', nb, 4, 'bracket recursions of the sub-parsers')
+    # each of the four sub-parsers reads `[..]` itself: where the others still do and one no longer has a bracketed path, bracketed text of
+    # that kind is read as one word (redundant brackets change what is selected) - a violation, not a lost anchor
+    if nb >= 1:
+        for pname, k_ in sorted(nb_by.items()):
+            ctx.check(k_ >= 1, 'C05.6', 'brackets:recognised:%s' % pname, repo.func('matcher.' + pname).loc(), '%s reads a bracketed list' % pname,
+                      '%s no longer tests for `[..]`: bracketed text handed to it is read as a single word' % pname)
+    ctx.floor('C05.6', nb, 1, 'bracket recursions of the sub-parsers')
     f_pml = repo.func('matcher._parse_matcher_list')
     n_pml = 0
     from ..sim import deep_norm as _dn
